@@ -70,6 +70,10 @@ pub struct BodyStats {
     pub polls_after_end: AtomicU64,
     pub frames: AtomicU64,
     pub cuts_inside: AtomicU64,
+    /// bytes delivered so far
+    pub delivered: AtomicU64,
+    /// end offset of every DATA frame delivered
+    pub chunk_ends: std::sync::Mutex<Vec<usize>>,
 }
 
 /// An `http_body::Body` whose every answer is scripted or chosen.
@@ -194,6 +198,8 @@ impl Body for ScriptBody {
             let chunk = this.data.slice(this.pos..this.pos + len);
             this.pos += len;
             this.stats.frames.fetch_add(1, Ordering::Relaxed);
+            this.stats.delivered.store(this.pos as u64, Ordering::Relaxed);
+            this.stats.chunk_ends.lock().unwrap().push(this.pos);
             if this.pos < limit && this.marks.contains(&this.pos) {
                 this.stats.cuts_inside.fetch_add(1, Ordering::Relaxed);
             }
